@@ -83,22 +83,31 @@ class Device(object):
             self.attrs.append(att)
         self.tags = tags
         self.ucmm = logix.setup(tags=tags)
-        for tg in cfg["tags"]:
-            name = bytes(bytearray(tg["name"])).decode("iso-8859-1")
-            got = device.resolve_tag(name)
-            if tuple(got) != tuple(tg["cia"]):
-                raise RuntimeError("tag %s allocated at %r, configuration says %r" % (name, got, tg["cia"]))
+        self.names = [bytes(bytearray(tg["name"])).decode("iso-8859-1") for tg in cfg["tags"]]
+        got = [tuple(device.resolve_tag(n) or ()) for n in self.names]
+        want = [tuple(tg["cia"]) for tg in cfg["tags"]]
+        if got != want and len(set(got)) == len(got):
+            # a different but alias-free allocation: the model's addresses would be wrong (not a property violation)
+            raise RuntimeError("tags allocated at %r, configuration says %r" % (got, want))
         self.cm = device.lookup(6, 1)
 
+    def attr_of(self, i):
+        """the Attribute the device itself resolves tag i to (not the object the harness created)"""
+        res = device.resolve_tag(self.names[i])
+        att = device.lookup(*res) if res else None
+        return att if att is not None else self.attrs[i]
+
     def set_mem(self, mem):
-        for tg, att, vals in zip(self.cfg["tags"], self.attrs, mem):
+        for i, (tg, vals) in enumerate(zip(self.cfg["tags"], mem)):
+            att = self.attr_of(i)
             pv = [dec_elem(tg["type"], b) for b in vals]
-            att.default = pv[0] if tg["scalar"] else pv
+            att.default = pv[0] if att.scalar else pv
 
     def get_mem(self):
         out = []
-        for tg, att in zip(self.cfg["tags"], self.attrs):
-            vals = [att.default] if tg["scalar"] else list(att.default)
+        for i, tg in enumerate(self.cfg["tags"]):
+            att = self.attr_of(i)
+            vals = [att.default] if att.scalar else list(att.default)
             out.append([enc_elem(tg["type"], v) for v in vals])
         return out
 
